@@ -582,8 +582,15 @@ class ComponentLevel3( ComponentLevel2 ):
             # 1. have the same host: writer_host(x)/reader_host(x):
             # Hence, writer is anything, reader is wire or outport
             if   whost == rhost:
+              # A connection between two signals of one component that is
+              # made by its parent can only be the loopback below: the
+              # parent cannot drive an out port or a wire of its child
+              parent = whost.get_parent_object()
+              made_in_parent = parent is not None and \
+                               v in parent._dsl.adjacency and u in parent._dsl.adjacency[v]
+
               valid = isinstance( u, (Signal, Const) ) and \
-                      isinstance( v, (OutPort, Wire) )
+                      isinstance( v, (OutPort, Wire) ) and not made_in_parent
               if not valid:
                 # Check if it's an outport driving inport. If it is
                 # connected at parent level, we permit this loopback from
@@ -699,6 +706,20 @@ class ComponentLevel3( ComponentLevel2 ):
 
 - host objects "{}" and "{}" are too far in the hierarchy.""" \
               .format( repr(u), repr(v), repr(whost), repr(rhost) ) )
+
+
+    # A component can connect its own signals and those of its children,
+    # not signals further down (they belong to a grandchild)
+    for m in s._dsl.all_named_objects:
+      if isinstance( m, ComponentLevel3 ):
+        for u, vs in m._dsl.adjacency.items():
+          for x in ( u, *vs ):
+            if isinstance( x, Signal ):
+              host = x.get_host_component()
+              if host is not m and host.get_parent_object() is not m:
+                raise InvalidConnectionError(
+                  f"{repr(x)} is connected in {repr(m)} (class {type(m).__name__}), but it belongs to "
+                  f"{repr(host)}, which is neither that component nor one of its children." )
 
   def _disconnect_signal_int( s, o1, o2 ):
 
